@@ -63,6 +63,7 @@ pub fn seeds(tier: &str) -> Vec<(Seed, PlanOpts)> {
         "tests/fonts/woff1/valid-005.woff",
         "tests/fonts/woff2/test-font.woff2",
         "tests/fonts/woff2/SFNT-TTF-Composite.woff2",
+        "tests/fonts/woff2/roundtrip-offset-tables-001.woff2",
     ];
     for f in &files {
         let bytes = match std::fs::read(f) {
